@@ -42,6 +42,8 @@ func runLeader(ctx *check.JobCtx, name string) {
 		scnStaking(sub)
 	case "faults":
 		scnFaults(sub)
+	case "selection":
+		scnSelection(sub)
 	default:
 		panic("unknown leader " + name)
 	}
